@@ -52,7 +52,7 @@ fn miri_pass(threads: u32, k: usize) -> Result<MiriOut, String> {
     // failure, never a verdict and never a hang
     let (code, out, err) = sh(Command::new("timeout")
         .current_dir(&ws)
-        .env("MIRIFLAGS", "-Zmiri-ignore-leaks")
+        .env("MIRIFLAGS", "-Zmiri-ignore-leaks -Zmiri-disable-isolation")
         .args(["-k", "10", "600", "cargo", "+nightly", "miri", "run", "--offline", "-q", "-p", "miri_pass", "--", &threads.to_string(), &k.to_string()]));
     if code == 124 || code == 137 {
         return Err(format!("cargo miri run (threads={threads}, creations={k}) did not end within 600 s and was killed"));
@@ -122,9 +122,14 @@ struct LoomOut {
 }
 
 fn loom_pass(profile: &str, threads: u32, k: usize, bound: usize, cap_s: u64, tall: usize) -> Result<LoomOut, String> {
+    loom_pass_mode(profile, threads, k, bound, cap_s, tall, false)
+}
+
+/// `no_prios`: outcome sets are compared without the priority values (generator seeded from outside the program)
+fn loom_pass_mode(profile: &str, threads: u32, k: usize, bound: usize, cap_s: u64, tall: usize, no_prios: bool) -> Result<LoomOut, String> {
     let ws = root().join(LOOM_WS);
     let bin = ws.join(format!("target/{profile}/loom_pass"));
-    let (code, out, err) = sh(Command::new(&bin).args([threads.to_string(), k.to_string(), bound.to_string(), cap_s.to_string(), tall.to_string()]));
+    let (code, out, err) = sh(Command::new(&bin).env("C17_NO_PRIOS", if no_prios { "1" } else { "0" }).args([threads.to_string(), k.to_string(), bound.to_string(), cap_s.to_string(), tall.to_string()]));
     let mut lo = LoomOut { serial_execs: 0, serial_outcomes: 0, par_execs: 0, par_outcomes: 0, main_values: 0, has_static_mut: false, rewrites: String::new(), samples: vec![], bad: vec![], aborted: None, capped: String::new() };
     let num = |l: &str, key: &str| -> u64 { l.split_whitespace().find_map(|t| t.strip_prefix(key)).and_then(|v| v.parse().ok()).unwrap_or(0) };
     let mut done = false;
@@ -184,8 +189,101 @@ fn build_loom_ws() -> Result<(), String> {
     Ok(())
 }
 
+
+// ---- turns pass: coarse-grained schedules on the real crate and real threads ---------------------------
+
+fn turns_bin(profile: &str) -> Option<std::path::PathBuf> {
+    let exe = std::env::current_exe().ok()?;
+    let target = exe.parent()?.parent()?;
+    let b = target.join(profile).join("c17_turns");
+    if b.exists() {
+        Some(b)
+    } else {
+        None
+    }
+}
+
+/// one fresh process per schedule: process-wide state of the library starts from scratch every time
+fn turns_run(profile: &str, prelude: &str, word: &str, sizes: &str) -> Result<Vec<Value>, String> {
+    let bin = turns_bin(profile).ok_or_else(|| format!("c17_turns ({profile}) is not built"))?;
+    let (code, out, err) = sh(Command::new("timeout").args(["-k", "5", "120"]).arg(&bin).args([prelude, word, sizes]));
+    if code == 124 || code == 137 {
+        return Err(format!("HANG: the schedule prelude={prelude} word={word} sizes={sizes} did not end within 120 s"));
+    }
+    let line = out.lines().find_map(|l| l.strip_prefix("RESULT ")).ok_or_else(|| format!("c17_turns exited {code} without a result: {}", err.lines().rev().take(5).collect::<Vec<_>>().join(" | ")))?;
+    let v: Value = serde_json::from_str(line).map_err(|e| format!("unreadable result: {e}"))?;
+    Ok(v.as_array().cloned().unwrap_or_default())
+}
+
+/// all words in which every thread 1..=t occurs exactly s times, in lexicographic order
+fn turn_words(t: usize, s: usize) -> Vec<String> {
+    fn rec(left: &mut Vec<usize>, cur: &mut String, out: &mut Vec<String>) {
+        if left.iter().all(|&x| x == 0) {
+            out.push(cur.clone());
+            return;
+        }
+        for i in 0..left.len() {
+            if left[i] > 0 {
+                left[i] -= 1;
+                cur.push((b'1' + i as u8) as char);
+                rec(left, cur, out);
+                cur.pop();
+                left[i] += 1;
+            }
+        }
+    }
+    let mut out = vec![];
+    rec(&mut vec![s; t], &mut String::new(), &mut out);
+    out
+}
+
+/// what is compared: everything, or — when the library's priorities are not a function of the schedule at
+/// all (two runs of the same thread alone differ: a generator seeded from the clock or an address) — only
+/// what does not depend on priorities
+fn turns_view(v: &Value, priorities_reproducible: bool) -> Value {
+    if priorities_reproducible || !v["panicked"].is_null() {
+        v.clone()
+    } else {
+        json!({"size": v["size"], "nodes": v["nodes"], "created": v["created"], "values_hash": v["values_hash"], "panicked": v["panicked"]})
+    }
+}
+
+/// thread `th` (1-based) in the schedule `word` against the same thread taking its turns alone
+fn turns_compare(profile: &str, prelude: &str, word: &str, sizes: &str, th: usize, alone: Option<(&Value, bool)>) -> Result<Result<(), String>, String> {
+    let s = word.bytes().filter(|&b| b == b'0' + th as u8).count();
+    let (alone_v, repro) = match alone {
+        Some((a, r)) => (a.clone(), r),
+        None => {
+            let w = ((b'0' + th as u8) as char).to_string().repeat(s);
+            let a1 = turns_run(profile, prelude, &w, sizes)?.get(th - 1).cloned().unwrap_or(Value::Null);
+            let a2 = turns_run(profile, prelude, &w, sizes)?.get(th - 1).cloned().unwrap_or(Value::Null);
+            let r = a1 == a2;
+            (a1, r)
+        }
+    };
+    let got = turns_run(profile, prelude, word, sizes)?.get(th - 1).cloned().unwrap_or(Value::Null);
+    if turns_view(&got, repro) == turns_view(&alone_v, repro) {
+        return Ok(Ok(()));
+    }
+    let what = if !got["panicked"].is_null() {
+        format!("its operations panicked ({})", got["panicked"])
+    } else if got["created_hash"] != alone_v["created_hash"] {
+        format!("the priorities of the nodes it created differ (every 97th of them: {} against {} alone)", got["first_difference_probe"], alone_v["first_difference_probe"])
+    } else {
+        format!("its treap differs: {} against {} alone", got, alone_v)
+    };
+    Ok(Err(format!("thread {th} of {} threads sharing no treap, batches of {sizes} node creations (one removal, one split / merge after each), turns taken in the order {word} (first node creations in the order {prelude}): {what}; the same batches with the other threads idle give another result", prelude.len())))
+}
+
 fn confirm(v: &Value) -> Result<(), String> {
     match v["pass"].as_str().unwrap_or("") {
+        "turns" => {
+            let g = |k: &str| v[k].as_str().unwrap_or("").to_string();
+            match turns_compare(&g("profile"), &g("prelude"), &g("word"), &g("sizes"), v["thread"].as_u64().unwrap_or(1) as usize, None) {
+                Err(m) => Err(format!("machinery: {m}")),
+                Ok(r) => r,
+            }
+        }
         "miri" => {
             let mo = miri_pass(v["threads"].as_u64().unwrap() as u32, v["k"].as_u64().unwrap() as usize)?;
             if let Some((l, f)) = mo.ub {
@@ -254,6 +352,106 @@ fn main() {
     }
     run.cov("miri_pass", Value::Array(miri_summ));
 
+
+    // ---- turns pass (real crate, real threads, every order of batches) --------------------------------
+    let mut turn_summ = vec![];
+    let mut turn_execs = 0u64;
+    {
+        // (first node creations in this order, batches per thread, batch sizes)
+        let cfgs: Vec<(&str, usize, &str)> = if quick {
+            vec![("12", 3, "3,4500,40"), ("21", 2, "4500,300"), ("123", 2, "4500,300")]
+        } else {
+            vec![("12", 3, "3,4500,40"), ("21", 3, "3,4500,40"), ("123", 2, "4500,300"), ("321", 2, "70,4500"), ("12", 2, "70000,5000"), ("123", 3, "3,4500,40"), ("1234", 2, "4500,300")]
+        };
+        for profile in ["release", "dbg"] {
+            if turns_bin(profile).is_none() {
+                if profile == "release" {
+                    run.machinery_failure("c17_turns (release) is not built");
+                }
+                continue;
+            }
+            for (prelude, s, sizes) in &cfgs {
+                let t = prelude.len();
+                let mut alone: Vec<Value> = vec![];
+                // are priorities a function of the schedule at all?  (every alone run is made twice)
+                let mut repro = true;
+                for th in 1..=t {
+                    let w = ((b'0' + th as u8) as char).to_string().repeat(*s);
+                    let mut two = vec![];
+                    for _ in 0..2 {
+                        match turns_run(profile, prelude, &w, sizes) {
+                            Ok(r) => two.push(r.get(th - 1).cloned().unwrap_or(Value::Null)),
+                            Err(m) => run.machinery_failure(&format!("turns pass, thread {th} alone: {m}")),
+                        }
+                        turn_execs += 1;
+                    }
+                    if two[0] != two[1] {
+                        repro = false;
+                    }
+                    alone.push(two.swap_remove(0));
+                }
+                if alone.iter().any(|a| !a["panicked"].is_null()) {
+                    run.machinery_failure(&format!("turns pass: a thread panics when it takes its turns alone: {:?}", alone));
+                }
+                let words = turn_words(t, *s);
+                let results: Vec<(String, usize, Result<Result<(), String>, String>)> = {
+                    let next = std::sync::atomic::AtomicUsize::new(0);
+                    let out = std::sync::Mutex::new(vec![]);
+                    std::thread::scope(|sc| {
+                        for _ in 0..12 {
+                            sc.spawn(|| loop {
+                                let i = next.fetch_add(1, std::sync::atomic::Ordering::Relaxed);
+                                if i >= words.len() {
+                                    break;
+                                }
+                                // one run per word, all threads judged from it
+                                let got = turns_run(profile, prelude, &words[i], sizes);
+                                for th in 1..=t {
+                                    let r = match &got {
+                                        Err(m) => Err(m.clone()),
+                                        Ok(g) => {
+                                            if g.get(th - 1).map(|x| turns_view(x, repro)) == Some(turns_view(&alone[th - 1], repro)) {
+                                                Ok(Ok(()))
+                                            } else {
+                                                // re-run for the message (and to see that it is stable)
+                                                turns_compare(profile, prelude, &words[i], sizes, th, Some((&alone[th - 1], repro)))
+                                            }
+                                        }
+                                    };
+                                    out.lock().unwrap().push((words[i].clone(), th, r));
+                                }
+                            });
+                        }
+                    });
+                    let mut v = out.into_inner().unwrap();
+                    v.sort_by(|a, b| (&a.0, a.1).cmp(&(&b.0, b.1)));
+                    v
+                };
+                turn_execs += words.len() as u64;
+                let mut bad = 0;
+                for (w, th, r) in results {
+                    match r {
+                        Err(m) if m.starts_with("HANG") => {
+                            bad += 1;
+                            run.violation(Violation::new(format!("turns:{profile}:prelude={prelude}:sizes={sizes}:word={w}:hang"), m, json!({"pass": "turns", "profile": profile, "prelude": prelude, "word": w, "sizes": sizes, "thread": th})));
+                        }
+                        Err(m) => run.machinery_failure(&format!("turns pass: {m}")),
+                        Ok(Ok(())) => {}
+                        Ok(Err(m)) => {
+                            bad += 1;
+                            if bad <= 3 {
+                                run.violation(Violation::new(format!("turns:{profile}:prelude={prelude}:sizes={sizes}:word={w}:thread={th}"), m, json!({"pass": "turns", "profile": profile, "prelude": prelude, "word": w, "sizes": sizes, "thread": th})));
+                            }
+                        }
+                    }
+                }
+                turn_summ.push(json!({"build": profile, "threads": t, "first_creations_in_order": prelude, "batches_per_thread": s, "batch_sizes": sizes, "orders_of_batches_executed": words.len(), "all_orders": true, "thread_results_differing_from_alone": bad, "priorities_reproducible_between_processes": repro,
+                    "nodes_created_by_thread_1_alone": alone[0]["created"], "distinct_priorities_probe_thread_1": alone[0]["created_head"]}));
+            }
+        }
+    }
+    run.cov("turns_pass", Value::Array(turn_summ));
+
     // ---- loom pass ----------------------------------------------------------------------------
     let mut execs = 0u64;
     let mut outcomes = 0u64;
@@ -276,10 +474,32 @@ fn main() {
             };
             for (profile, t, k, b, tall) in cfgs {
                 let cap_s: u64 = if quick { 45 } else { 240 };
-                let lo = match loom_pass(profile, t, k, b, cap_s, tall) {
+                let mut lo = match loom_pass(profile, t, k, b, cap_s, tall) {
                     Ok(l) => l,
                     Err(m) => run.machinery_failure(&m),
                 };
+                let mut unseeded = false;
+                if lo.aborted.is_none() && lo.main_values > 1 && !lo.has_static_mut && !race_found {
+                    // The first priority of the process differs between executions although nothing is shared
+                    // through a `static mut`.  Either the generator is seeded from outside the program (clock,
+                    // address: priorities are then no function of the schedule and are left out of the
+                    // comparison of outcome sets), or state survives executions some other way — told apart
+                    // by two plain runs of one thread alone in fresh processes.
+                    let a1 = turns_run("release", "1", "1", "3");
+                    let a2 = turns_run("release", "1", "1", "3");
+                    if let (Ok(x), Ok(y)) = (&a1, &a2) {
+                        if x != y {
+                            unseeded = true;
+                            lo = match loom_pass_mode(profile, t, k, b, cap_s, tall, true) {
+                                Ok(l) => l,
+                                Err(m) => run.machinery_failure(&m),
+                            };
+                            lo.main_values = 1;
+                            run.cov("loom_pass_note", "the priorities of a single thread differ between two fresh processes (generator seeded from outside the program): priority values are left out of the comparison of outcome sets; sequence results, tie shapes, renderings and panics are judged as always");
+                        }
+                    }
+                }
+                let _ = unseeded;
                 let rep = json!({"pass": "loom", "profile": profile, "threads": t, "k": k, "bound": b, "cap_s": cap_s, "tall": tall});
                 loom_summ.push(json!({"build": profile, "threads": t, "creations_per_thread": k, "preemption_bound": b, "tall_treap_nodes": tall,
                     "serialised_executions": lo.serial_execs, "serialised_outcomes": lo.serial_outcomes,
@@ -326,15 +546,15 @@ fn main() {
     }
     run.cov("loom_pass", Value::Array(loom_summ));
     run.cov("states", outcomes.max(1));
-    run.cov("transitions", execs.max(1));
-    run.cov("traces_validated_against_impl", execs);
+    run.cov("transitions", (execs + turn_execs).max(1));
+    run.cov("traces_validated_against_impl", execs + turn_execs);
     run.cov("evaluations", execs.max(1));
     run.cov("distinct_nontrivial", execs);
     run.cov("exhaustive", !run.has_violations() && !any_capped && loom_limit.is_none());
     if let Some(l) = &loom_limit {
         run.cov("loom_pass_note", format!("loom could not model this tree ({l}); the verdict rests on the Miri pass alone"));
     }
-    run.cov("rule", "loom DPOR with the stated preemption bound over the 2-3 thread harness (each thread: k node creations through from_item/insert_at, merge, split, remove, collect on a treap it owns, a merge/split of three nodes with hand-set EQUAL priorities whose resulting shape must equal the solo run's, and the {:?} / TreePrinter renderings of both treaps, which must equal the renderings made again after all threads were joined; a panic inside a thread's operations is a result like any other and differs from the solo run; explored twice: a helper thread creates one node and is joined before the threads are spawned, and 'cold' where the threads' first creations are the first of the process; a third exploration gives every thread a hand-built path-shaped treap as tall as it is large and runs split / merge / remove / insert down its whole spine, so that anything shared per level of recursion is exercised on all threads at once), in two builds of the pass (optimised; debug assertions + overflow checks); every source file of the treap crate is copied and rerouted, so new modules and statics are covered; every execution runs the treap crate's own source with its shared state rerouted to loom; `transitions` = complete schedules executed (serialised reference + unserialised), `states` = distinct unserialised outcomes; each loom execution is a distinct schedule");
+    run.cov("rule", "loom DPOR with the stated preemption bound over the 2-3 thread harness (each thread: k node creations through from_item/insert_at, merge, split, remove, collect on a treap it owns, a merge/split of three nodes with hand-set EQUAL priorities whose resulting shape must equal the solo run's, and the {:?} / TreePrinter renderings of both treaps, which must equal the renderings made again after all threads were joined; a panic inside a thread's operations is a result like any other and differs from the solo run; explored twice: a helper thread creates one node and is joined before the threads are spawned, and 'cold' where the threads' first creations are the first of the process; a third exploration gives every thread a hand-built path-shaped treap as tall as it is large and runs split / merge / remove / insert down its whole spine, so that anything shared per level of recursion is exercised on all threads at once), in two builds of the pass (optimised; debug assertions + overflow checks); every source file of the treap crate is copied and rerouted, so new modules and statics are covered; every execution runs the treap crate's own source with its shared state rerouted to loom; a TURNS pass on the real crate and real threads: 2-4 threads that share no treap each create one node (in a fixed order), then take turns running batches of node creations (3 to 4500 nodes per batch, thorough 70000; one removal and one split / merge after each batch) — EVERY order of the batches is executed, one fresh process per order, handed over under a mutex + condvar — and every thread's treap (priorities in creation order and in in-order, shape, size) must equal what the same thread gets when it takes its turns alone; this reaches per-thread counts (thousands of nodes) that the loom and Miri passes cannot; `transitions` = complete schedules executed (serialised reference + unserialised + orders of batches), `states` = distinct unserialised outcomes; each loom execution is a distinct schedule");
     run.assume("loom models the primitives that build.rs reroutes (thread_local!, std::sync, std::thread, non-mut statics); accesses it does not intercept (static mut, raw UnsafeCell) are covered only by the free-running Miri pass, one execution per configuration");
     if !race_found && execs == 0 && loom_limit.is_none() {
         run.machinery_failure("no loom execution was counted");
